@@ -12,7 +12,19 @@ import (
 // polarity with which the condition states it.
 type atomClassifier func(cond ssa.Value) (name string, pol bool, ok bool)
 
+// boolHelpers, when set by a rule, lets the walk look into a boolean helper of the module (a side-effect free
+// function the predicate calls, e.g. startsBeforeStop(a.StartKey(), b.StopKey())): the helper's body is
+// walked with the same atoms, bind is told which value each parameter stands for while it is walked.
+type boolHelpers struct {
+	bind  func(params []*ssa.Parameter, args []ssa.Value) (unbind func())
+	depth int
+}
+
 func evalAtom(cond ssa.Value, cl atomClassifier, assign map[string]bool) (bool, bool) {
+	return evalAtomH(cond, cl, assign, nil)
+}
+
+func evalAtomH(cond ssa.Value, cl atomClassifier, assign map[string]bool, h *boolHelpers) (bool, bool) {
 	neg := false
 	for {
 		if u, ok := cond.(*ssa.UnOp); ok && u.Op == token.NOT {
@@ -31,7 +43,26 @@ func evalAtom(cond ssa.Value, cl atomClassifier, assign map[string]bool) (bool, 
 	}
 	name, pol, ok := cl(cond)
 	if !ok {
-		return false, false
+		call, isCall := cond.(*ssa.Call)
+		if !isCall || h == nil || h.bind == nil || h.depth > 2 {
+			return false, false
+		}
+		g := call.Call.StaticCallee()
+		if g == nil || call.Call.IsInvoke() || len(g.Blocks) == 0 || g.Signature.Results().Len() != 1 || !sideEffectFree(g) {
+			return false, false
+		}
+		unbind := h.bind(g.Params, call.Call.Args)
+		h.depth++
+		v, ok := boolFuncEval(g, assign, cl, h)
+		h.depth--
+		unbind()
+		if !ok {
+			return false, false
+		}
+		if neg {
+			v = !v
+		}
+		return v, true
 	}
 	v := assign[name]
 	if !pol {
@@ -41,6 +72,76 @@ func evalAtom(cond ssa.Value, cl atomClassifier, assign map[string]bool) (bool, 
 		v = !v
 	}
 	return v, true
+}
+
+// sideEffectFree: the function stores nothing, starts nothing, defers nothing and sends nothing.
+func sideEffectFree(fn *ssa.Function) bool {
+	ok := true
+	kit.Instrs(fn, func(in ssa.Instruction) {
+		switch in.(type) {
+		case *ssa.Store, *ssa.MapUpdate, *ssa.Send, *ssa.Go, *ssa.Defer, *ssa.Panic, *ssa.Select, *ssa.MakeClosure:
+			ok = false
+		}
+	})
+	return ok && len(fn.AnonFuncs) == 0
+}
+
+// boolFuncEval walks fn under one assignment of the atoms.
+func boolFuncEval(fn *ssa.Function, assign map[string]bool, cl atomClassifier, h *boolHelpers) (bool, bool) {
+	env := map[*ssa.Phi]ssa.Value{}
+	b := fn.Blocks[0]
+	var prev *ssa.BasicBlock
+	for steps := 0; steps < 200; steps++ {
+		var next *ssa.BasicBlock
+		for _, in := range b.Instrs {
+			if ph, ok := in.(*ssa.Phi); ok {
+				for k, p := range b.Preds {
+					if p == prev {
+						v := ph.Edges[k]
+						if q, ok := v.(*ssa.Phi); ok {
+							if r, ok := env[q]; ok {
+								v = r
+							}
+						}
+						env[ph] = v
+					}
+				}
+				continue
+			}
+			switch t := in.(type) {
+			case *ssa.If:
+				val, ok := evalAtomH(t.Cond, cl, assign, h)
+				if !ok {
+					return false, false
+				}
+				if val {
+					next = b.Succs[0]
+				} else {
+					next = b.Succs[1]
+				}
+			case *ssa.Jump:
+				next = b.Succs[0]
+			case *ssa.Return:
+				v := kit.Res(t, 0)
+				if ph, ok := v.(*ssa.Phi); ok {
+					if r, ok := env[ph]; ok {
+						v = r
+					}
+				}
+				return evalAtomH(v, cl, assign, h)
+			case *ssa.Panic:
+				return false, false
+			}
+			if next != nil {
+				break
+			}
+		}
+		if next == nil {
+			return false, false
+		}
+		prev, b = b, next
+	}
+	return false, false
 }
 
 // boolFuncTable evaluates a straight (loop-free) boolean function under every
@@ -118,6 +219,27 @@ func boolFuncTable(fn *ssa.Function, atoms []string, cl atomClassifier) (map[int
 		if !done {
 			return nil, "no return reached"
 		}
+	}
+	return out, ""
+}
+
+// boolFuncTableH is boolFuncTable that looks into boolean helpers (see boolHelpers).
+func boolFuncTableH(fn *ssa.Function, atoms []string, cl atomClassifier, h *boolHelpers) (map[int]bool, string) {
+	tbl, bad := boolFuncTable(fn, atoms, cl)
+	if tbl != nil || h == nil {
+		return tbl, bad
+	}
+	out := map[int]bool{}
+	for mask := 0; mask < 1<<len(atoms); mask++ {
+		assign := map[string]bool{}
+		for i, a := range atoms {
+			assign[a] = mask&(1<<i) != 0
+		}
+		v, ok := boolFuncEval(fn, assign, cl, h)
+		if !ok {
+			return nil, bad
+		}
+		out[mask] = v
 	}
 	return out, ""
 }
